@@ -350,3 +350,199 @@ pub fn drive_measures(cx: &mut Ctx, vec_file: &str) {
         }
     }
 }
+
+// ---------------------------------------------------------------------------------------
+// C17: Hilbert curve tables, orderings, dedup policies
+// ---------------------------------------------------------------------------------------
+use delaunay::core::delaunay_triangulation::InsertionOrderStrategy;
+use delaunay::core::delaunay_triangulation::verif_preprocess;
+use delaunay::core::util::deduplication::{dedup_vertices_epsilon, dedup_vertices_exact};
+use delaunay::core::util::hilbert::{hilbert_index, hilbert_indices_prequantized, hilbert_sort_by_stable, hilbert_sorted_indices};
+
+fn hilbert_event<const D: usize>(tr: &mut Tracer, bits: u32) {
+    let side = 1u32 << bits;
+    let n = (side as u64).pow(D as u32) as usize;
+    // every cell of the grid in lexicographic order (first coordinate most significant)
+    let mut cells: Vec<[u32; D]> = Vec::with_capacity(n);
+    for idx in 0..n {
+        let mut c = [0u32; D];
+        let mut rem = idx;
+        for j in (0..D).rev() {
+            c[j] = (rem % side as usize) as u32;
+            rem /= side as usize;
+        }
+        cells.push(c);
+    }
+    let g = tr.guard("hilbert", || {
+        let t = hilbert_indices_prequantized(&cells, bits);
+        // the float entry point on cell centres must agree with the prequantized table
+        let mut float_ok = true;
+        if let Ok(tab) = &t {
+            for (i, c) in cells.iter().enumerate().step_by(1 + n / 512) {
+                let mut f = [0f64; D];
+                for j in 0..D {
+                    f[j] = c[j] as f64;
+                }
+                match hilbert_index(&f, (0.0, (side - 1) as f64), bits) {
+                    Ok(x) if x == tab[i] => {}
+                    _ => float_ok = false,
+                }
+            }
+        }
+        (t, float_ok)
+    });
+    tr.tag = format!("C17 hilbert D={D} bits={bits}");
+    match g {
+        Guarded::Done((Ok(tab), float_ok)) => {
+            let table: Vec<i64> = tab.iter().map(|&x| x as i64).collect();
+            // curve = cells listed by increasing index (a projection; TLC checks it against the table)
+            let mut order: Vec<usize> = (0..n).collect();
+            order.sort_by_key(|&i| tab[i]);
+            let curve: Vec<Vec<i64>> = order.iter().map(|&i| cells[i].iter().map(|&x| x as i64).collect()).collect();
+            tr.emit("Hilbert", 0, json!({"D": D, "bits": bits}), json!({"kind":"Ok","table": table, "curve": curve, "float_ok": float_ok}), None, false);
+        }
+        Guarded::Done((Err(e), _)) => {
+            tr.emit("Hilbert", 0, json!({"D": D, "bits": bits}), json!({"kind":"Err","err":variant(&e),"table":[],"curve":[],"float_ok":false}), None, false);
+        }
+        Guarded::Panicked(_) => {
+            tr.emit("Hilbert", 0, json!({"D": D, "bits": bits}), json!({"kind":"Panic"}), None, true);
+        }
+    }
+}
+
+/// vertex list with ties, exact duplicates, signed zeros and near-duplicates; returns (vertices, m, off-lattice flag)
+fn order_inputs<const D: usize>(r: &mut Rng, n: usize, hi: i64, s: i32, near: bool) -> (Vec<delaunay::core::vertex::Vertex<f64, VData, D>>, Vec<Value>) {
+    let mut vs = Vec::new();
+    let mut desc = Vec::new();
+    let mut pts: Vec<Vec<i64>> = Vec::new();
+    for i in 0..n {
+        let m: Vec<i64> = if i > 0 && r.chance(1, 4) { r.pick(&pts).clone() } else { (0..D).map(|_| r.range(-hi, hi)).collect() };
+        pts.push(m.clone());
+        let mut c = [0f64; D];
+        for j in 0..D {
+            c[j] = m[j] as f64 * pow2(s);
+            if m[j] == 0 && r.chance(1, 2) {
+                c[j] = -0.0;
+            }
+        }
+        // near duplicates: half a lattice unit off along axis 0 (handled exactly: the spec works in half units)
+        let half = near && r.chance(1, 5);
+        if half {
+            c[0] += 0.5 * pow2(s);
+        }
+        let id = i as i64 + 1;
+        vs.push(delaunay::core::vertex::Vertex::new_with_uuid(Point::new(c), mk_uuid(500_000 + i as u64), Some(id as i32)));
+        // coordinates in HALF lattice units (integers)
+        let h: Vec<i64> = m.iter().enumerate().map(|(j, x)| 2 * x + i64::from(half && j == 0)).collect();
+        desc.push(json!({"id": id, "h": h}));
+    }
+    (vs, desc)
+}
+
+fn order_event<const D: usize>(tr: &mut Tracer, r: &mut Rng, idx: usize) {
+    let s = *r.pick(&[0, 0, -6, 9, 40, -40]);
+    let n = 3 + r.below(10);
+    let hi = if idx % 3 == 0 { 2 } else { 6 };
+    let (vs, desc) = order_inputs::<D>(r, n, hi, s, false);
+    let id_of = |v: &delaunay::core::vertex::Vertex<f64, VData, D>| v.data.map_or(0, i64::from);
+    tr.tag = format!("C17 order D={D}");
+    let g = tr.guard("ordering", || {
+        let mut outs: Vec<Value> = Vec::new();
+        for (name, st) in [("Input", InsertionOrderStrategy::Input), ("Lexicographic", InsertionOrderStrategy::Lexicographic),
+                           ("Morton", InsertionOrderStrategy::Morton), ("Hilbert", InsertionOrderStrategy::Hilbert)] {
+            let o = verif_preprocess::order_vertices(vs.clone(), st);
+            outs.push(json!({"strategy": name, "out": o.iter().map(id_of).collect::<Vec<_>>()}));
+        }
+        // public helpers
+        let coords: Vec<[f64; D]> = vs.iter().map(|v| *v.point().coords()).collect();
+        let lo = coords.iter().flatten().copied().fold(f64::INFINITY, f64::min);
+        let hi_f = coords.iter().flatten().copied().fold(f64::NEG_INFINITY, f64::max);
+        let bounds = (lo, if hi_f > lo { hi_f } else { lo + 1.0 });
+        if let Ok(ix) = hilbert_sorted_indices(&coords, bounds, 8) {
+            outs.push(json!({"strategy": "hilbert_sorted_indices", "out": ix.iter().map(|&i| id_of(&vs[i])).collect::<Vec<_>>()}));
+        }
+        let mut items = vs.clone();
+        if hilbert_sort_by_stable(&mut items, bounds, 8, |v| *v.point().coords()).is_ok() {
+            outs.push(json!({"strategy": "hilbert_sort_by_stable", "out": items.iter().map(id_of).collect::<Vec<_>>()}));
+        }
+        let bal = verif_preprocess::balanced_simplex_indices(&vs).map(|v| v.iter().map(|&i| i as i64 + 1).collect::<Vec<_>>());
+        (outs, bal)
+    });
+    match g {
+        Guarded::Done((outs, bal)) => {
+            tr.emit("Order", 0, json!({"D": D, "s": s, "input": desc}), json!({"outs": outs, "balanced": bal.unwrap_or_default()}), None, false);
+        }
+        Guarded::Panicked(_) => {
+            tr.emit("Order", 0, json!({"D": D, "s": s, "input": desc}), json!({"outs": [], "balanced": []}), None, true);
+        }
+    }
+}
+
+fn dedup_event<const D: usize>(tr: &mut Tracer, r: &mut Rng, idx: usize) {
+    let s = *r.pick(&[0, 0, -6, 9]);
+    let n = 3 + r.below(12);
+    let hi = if idx % 2 == 0 { 2 } else { 4 };
+    let (vs, desc) = order_inputs::<D>(r, n, hi, s, true);
+    // epsilon in HALF lattice units: 0 (removes nothing), 1, 2, 3 half units
+    let eh = r.below(4) as i64;
+    let eps = eh as f64 * 0.5 * pow2(s);
+    let id_of = |v: &delaunay::core::vertex::Vertex<f64, VData, D>| v.data.map_or(0, i64::from);
+    tr.tag = format!("C17 dedup D={D}");
+    let g = tr.guard("dedup", || {
+        let mut outs: Vec<Value> = Vec::new();
+        outs.push(json!({"variant": "dedup_vertices_exact", "kind": "exact", "out": dedup_vertices_exact(&vs).iter().map(id_of).collect::<Vec<_>>()}));
+        outs.push(json!({"variant": "dedup_vertices_epsilon", "kind": "eps", "out": dedup_vertices_epsilon(&vs, eps).iter().map(id_of).collect::<Vec<_>>()}));
+        let cell = if eps > 0.0 { eps } else { 1e-10 };
+        for (w, kind, name) in [(0usize, "exact", "exact_sorted"), (1, "exact", "exact_hash_grid"), (2, "eps", "epsilon_n2"),
+                                (3, "eps", "epsilon_quantized"), (4, "eps", "epsilon_hash_grid")] {
+            let o = verif_preprocess::dedup(vs.clone(), w, eps, cell);
+            outs.push(json!({"variant": name, "kind": kind, "out": o.iter().map(id_of).collect::<Vec<_>>()}));
+        }
+        outs
+    });
+    match g {
+        Guarded::Done(outs) => {
+            tr.emit("Dedup", 0, json!({"D": D, "s": s, "eh": eh, "input": desc}), json!({"outs": outs}), None, false);
+        }
+        Guarded::Panicked(_) => {
+            tr.emit("Dedup", 0, json!({"D": D, "s": s, "eh": eh, "input": desc}), json!({"outs": []}), None, true);
+        }
+    }
+}
+
+pub fn drive_orderings(cx: &mut Ctx) {
+    // Hilbert tables: every (D, bits) with 2^(D*bits) <= cap
+    let cap: u64 = if cx.thorough { 65_536 } else { 4_096 };
+    for d in 1..=5u32 {
+        for bits in 1..=16u32 {
+            if (1u64 << (d * bits).min(40)) > cap {
+                break;
+            }
+            if !cx.mine() {
+                continue;
+            }
+            match d {
+                1 => hilbert_event::<1>(&mut cx.tr, bits),
+                2 => hilbert_event::<2>(&mut cx.tr, bits),
+                3 => hilbert_event::<3>(&mut cx.tr, bits),
+                4 => hilbert_event::<4>(&mut cx.tr, bits),
+                _ => hilbert_event::<5>(&mut cx.tr, bits),
+            }
+        }
+    }
+    let per = if cx.thorough { 800 } else { 100 };
+    let mut r = Rng::new(cx.seed * 77 + 5);
+    for d in 2..=5usize {
+        for i in 0..per {
+            if !cx.mine() {
+                continue;
+            }
+            match d {
+                2 => { order_event::<2>(&mut cx.tr, &mut r, i); dedup_event::<2>(&mut cx.tr, &mut r, i) }
+                3 => { order_event::<3>(&mut cx.tr, &mut r, i); dedup_event::<3>(&mut cx.tr, &mut r, i) }
+                4 => { order_event::<4>(&mut cx.tr, &mut r, i); dedup_event::<4>(&mut cx.tr, &mut r, i) }
+                _ => { order_event::<5>(&mut cx.tr, &mut r, i); dedup_event::<5>(&mut cx.tr, &mut r, i) }
+            }
+        }
+    }
+}
